@@ -15,20 +15,73 @@ func runC12(e *Env) error {
 	t0 := time.Now()
 	e.Header = "From Coq Require Import NArith List.\nFrom V Require Import Gossip.GossipModel Gossip.GossipRun.\nImport ListNotations.\nLocal Open Scope N_scope."
 	e.CaseType = "gcase"
-	e.ShardBytes = 150000
-	e.ShardSize = 200
+	e.ShardBytes = 120000
+	e.ShardSize = 150
 	e.Rule = "per topic: honest messages over the slots/committees/subnets of a window on chains built with the real transition (real BLS signatures), plus every single-condition corruption and the timing/availability failures; non-trivial = every case (each runs a validator against a chain view); distinct by (topic, corruption, verdict, ordinal)"
 	g := &Gen{E: e, Count: map[string]int{}}
 	c := NewCrypto()
+	lap := func(what string) { fmt.Fprintf(os.Stderr, "%-28s %8.2fs  cases so far %d\n", what, time.Since(t0).Seconds(), g.Total) }
 
+	// world "small": 64 validators, two committees of four per slot, altair from epoch 2
 	small := NewWorld(WorldKnobs{Name: "small", Validators: 64, TargetCommittee: 4, SyncCommittee: 32, AltairEpoch: 2, ShardCommittee: 1, MaxCommitteeSize: 16}, c)
 	sc := buildChain(small, 36)
-	fmt.Fprintln(os.Stderr, "chain small", time.Since(t0), len(sc.Main), len(sc.Side))
+	lap("chain small")
 	heads := []*Node{sc.BySlot[3], sc.BySlot[7], sc.BySlot[12], sc.BySlot[20], sc.Tip(), sc.Side[len(sc.Side)-1]}
 	sample := []common.ValidatorIndex{0, 9, 17, 33, 63}
 	g.genExits(small, heads, sample, sc.Special)
 	g.genProposerSlashings(small, heads, sample, sc.Special)
 	g.genAttesterSlashings(small, heads, sc.Special)
-	fmt.Fprintln(os.Stderr, "ops topics", time.Since(t0))
+	lap("operations")
+
+	mkView := func(sc *Scenario, head *Node, slot common.Slot, ms int64) *View {
+		v := NewView(sc.W, head, 0)
+		v.NowMs = v.SlotStartMs(slot) + ms
+		return v
+	}
+	attViews := []*View{mkView(sc, sc.Tip(), sc.Tip().Slot, 4000), mkView(sc, sc.BySlot[12], 12, 4000), mkView(sc, sc.BySlot[20], 22, 1000),
+		mkView(sc, sc.Side[len(sc.Side)-1], 19, 4000), mkView(sc, sc.BySlot[1], 1, 4000)}
+	if !e.Quick() {
+		for _, s := range []common.Slot{5, 9, 16, 17, 23, 27, 30, 33} {
+			if n := sc.BySlot[s]; n != nil {
+				attViews = append(attViews, mkView(sc, n, s, 4000))
+			}
+		}
+	}
+	g.genAttestations(sc, attViews)
+	lap("attestations small")
+	g.genAggregates(sc, attViews)
+	lap("aggregates small")
+	g.genBlocks(sc)
+	lap("blocks small")
+	syncHeads := []*Node{sc.BySlot[17], sc.BySlot[23], sc.Tip(), sc.Side[len(sc.Side)-1]}
+	g.genSyncMessages(sc, syncHeads)
+	g.genSyncPreAltair(sc)
+	lap("sync messages small")
+	g.genContributions(sc, syncHeads)
+	lap("contributions small")
+
+	// world "large": 256 validators, one committee of 32 per slot (aggregator selection modulo 2),
+	// sync committee of 128 (sync aggregator selection modulo 2), altair from epoch 1
+	large := NewWorld(WorldKnobs{Name: "large", Validators: 256, TargetCommittee: 32, SyncCommittee: 128, AltairEpoch: 1, ShardCommittee: 1}, c)
+	lc := buildChain(large, e2n(e, 20, 36))
+	lap("chain large")
+	lviews := []*View{mkView(lc, lc.Tip(), lc.Tip().Slot, 4000), mkView(lc, lc.BySlot[12], 12, 4000)}
+	g.genAggregates(lc, lviews)
+	lap("aggregates large")
+	g.genAttestations(lc, lviews[:1])
+	lap("attestations large")
+	lheads := []*Node{lc.BySlot[12], lc.Tip()}
+	g.genContributions(lc, lheads)
+	lap("contributions large")
+	g.genSyncMessages(lc, lheads[1:])
+	lap("sync messages large")
+	g.Flush()
 	return nil
+}
+
+func e2n(e *Env, q, t int) common.Slot {
+	if e.Quick() {
+		return common.Slot(q)
+	}
+	return common.Slot(t)
 }
